@@ -69,6 +69,21 @@ def wrap(ctx):
                     return script(len(seen) - 1)
                 return None
             ev.decide = decide
+
+            def where3(cond, a_, b_):
+                # an element-wise choice on a data-dependent condition is a comparison like the others: scripted the same way
+                c_ = np.asarray(cond, dtype=object)
+                A_, B_ = np.broadcast_arrays(np.asarray(a_, dtype=object), np.asarray(b_, dtype=object))
+                A_, B_ = np.broadcast_to(A_, np.broadcast_shapes(c_.shape, A_.shape)), np.broadcast_to(B_, np.broadcast_shapes(c_.shape, B_.shape))
+                c_ = np.broadcast_to(c_, A_.shape)
+                out = np.empty(A_.shape, dtype=object)
+                for ix in np.ndindex(A_.shape):
+                    ci = c_[ix]
+                    if isinstance(ci, sp.core.relational.Relational):
+                        ci = decide('where', ci, None)
+                    out[ix] = A_[ix] if bool(ci) else B_[ix]
+                return out
+            ev.np_override = {'numpy.where': where3}
             paths = ev.run_fn(fn, [me, True], {})
             live = [p for p in paths if p.done == 'return']
             ctx.need(len(live) == 1, 'System.wrap does not reduce to one path (pbc=%s)' % tag)
@@ -99,10 +114,8 @@ def wrap(ctx):
             if script_name == 'all':
                 # comparisons: min <= 0 and max >= 1, two per non-periodic direction, independent
                 ok_cmp = len(seen) == 2 * len(nonper)
-                for k, i in enumerate(nonper):
-                    if 2 * k + 1 < len(seen):
-                        a, b = seen[2 * k], seen[2 * k + 1]
-                        ok_cmp = ok_cmp and _le0(a, sp.Min(S[0, i], S[1, i]) - 0) and _le0(b, 1 - sp.Max(S[0, i], S[1, i]))
+                for i in nonper:      # in whatever order the comparisons are made (direction by direction, or all lower bounds first)
+                    ok_cmp = ok_cmp and any(_le0(a, sp.Min(S[0, i], S[1, i]) - 0) for a in seen) and any(_le0(b, 1 - sp.Max(S[0, i], S[1, i])) for b in seen)
                 ctx.ob('WRAP', loc, 'pbc=%s: along each non-periodic direction the lower bound is tested against min(s) and, independently, the upper bound against max(s)' % tag,
                        ok_cmp, '%d comparisons for %d non-periodic directions: %s' % (len(seen), len(nonper), [str(x) for x in seen[:4]]), key='bounds ' + tag)
             got = [kw.get('avect'), kw.get('bvect'), kw.get('cvect')]
